@@ -32,7 +32,7 @@ McPorts(cx) == {cx.route[i].port : i \in {j \in DOMAIN cx.route : cx.route[j].mc
 HasMc(cx) == McPorts(cx) # {}
 
 Init0 == [phase |-> "none", queue |-> <<>>, blocked |-> {}, bound |-> {}, compUnbound |-> {}, registered |-> {},
-          sel |-> "", holder |-> "", script |-> {}, outc |-> 0, finals |-> 0]
+          sel |-> "", holder |-> "", script |-> {}, react |-> {}, outc |-> 0, finals |-> 0]
 
 ScriptOf(st, port, event) ==
   LET m == {x \in st.script : x.port = port /\ x.event = event} IN
@@ -122,6 +122,22 @@ AfterMc(cx, st, r, client) ==
                                             !.holder = IF st.holder = client THEN "" ELSE st.holder]
   ELSE st
 
+\* the wrapped component may raise an out-event of the same port while it handles an in-event (react command):
+\* delivered like any out-event of that port, in the context the handler runs in, BEFORE the caller continues
+ReactionOf(st, port, event) == {x \in st.react : x.port = port /\ x.event = event}
+ReactArgs(r) == [k \in 1..Len(r.dirs) |-> 770 + k]
+Reaction(cx, st, port, event, ctx) ==
+  IF ReactionOf(st, port, event) = {} THEN <<>>
+  ELSE LET ro == R(cx, port, (CHOOSE x \in ReactionOf(st, port, event) : TRUE).out) IN
+       IF ro.mech = "select"
+       THEN (IF st.sel # "" /\ <<port, ro.event, st.sel>> \in st.bound
+             THEN <<Entry("user", ro, ctx, st.sel, ReactArgs(ro), <<>>, 0)>> ELSE <<>>)
+       ELSE <<Entry("user", ro, ctx, "", ReactArgs(ro), <<>>, 0)>>
+
+React(cx, st, port, event, out) ==
+  LET s2 == [st EXCEPT !.react = {x \in @ : ~(x.port = port /\ x.event = event)} \cup {[port |-> port, event |-> event, out |-> out]}]
+  IN [st |-> s2, obs |-> Obs(s2, Ok, <<>>, {})]
+
 Call(cx, st, who, port, client, event, args) ==        \* a client calls an in-event of a provides port
   LET r == R(cx, port, event) IN
   IF r.mc /\ ~RegisterOk(st, client)
@@ -129,7 +145,7 @@ Call(cx, st, who, port, client, event, args) ==        \* a client calls an in-e
   ELSE LET s1 == IF r.mc THEN [st EXCEPT !.registered = @ \cup {client}] ELSE st IN
   IF r.mech = "direct"
   THEN LET s2 == [s1 EXCEPT !.outc = @ + NumOuts(r)] IN
-       [st |-> s2, obs |-> Obs(s2, Ok, <<Entry("comp", r, who, "", args, Outs(s1, r), ReplyRaw(s1, r))>>,
+       [st |-> s2, obs |-> Obs(s2, Ok, <<Entry("comp", r, who, "", args, Outs(s1, r), ReplyRaw(s1, r))>> \o Reaction(cx, s1, port, event, who),
                                {Done(who, ReplySeen(s1, r), Outs(s1, r))})]
   ELSE LET s2 == [s1 EXCEPT !.queue = Append(@, [kind |-> "shell", port |-> port, event |-> event, args |-> args,
                                                   who |-> who, client |-> client]),
@@ -153,7 +169,8 @@ Pump(cx, st) ==                                        \* the dispatcher runs ex
        IN IF k.kind = "post" THEN [st |-> s1, obs |-> Obs(s1, Ok, <<e>>, {})]
           ELSE LET s2 == [s1 EXCEPT !.blocked = @ \ {k.who}]
                    s3 == IF r.mc THEN AfterMc(cx, s2, r, k.client) ELSE s2
-               IN [st |-> s3, obs |-> Obs(s3, Ok, <<e>>, {Done(k.who, ReplySeen(st, r), Outs(st, r))})]
+               IN [st |-> s3, obs |-> Obs(s3, Ok, <<e>> \o Reaction(cx, st, k.port, k.event, "disp"),
+                                         {Done(k.who, ReplySeen(st, r), Outs(st, r))})]
 
 Comp(cx, st, who, port, event, args) ==                \* the wrapped component raises an out-event / calls an in-event
   LET r == R(cx, port, event) IN
@@ -180,6 +197,7 @@ Apply(cx, st, cmd) ==
     [] cmd.c = "register"    -> Register(cx, st, cmd.id)
     [] cmd.c = "final"       -> Final(cx, st)
     [] cmd.c = "script"      -> Script(cx, st, cmd.port, cmd.event, cmd.v)
+    [] cmd.c = "react"       -> React(cx, st, cmd.port, cmd.event, cmd.out)
     [] cmd.c = "call"        -> Call(cx, st, cmd.who, cmd.port, cmd.client, cmd.event, cmd.args)
     [] cmd.c = "raise"       -> Raise(cx, st, cmd.who, cmd.port, cmd.event, cmd.args)
     [] cmd.c = "pump"        -> Pump(cx, st)
